@@ -758,6 +758,27 @@ func lazyInit(fr *frame, g *ssa.Global) {
 // globals are modelled or unused.
 var skipInit = map[string]bool{"errors": true, "internal/reflectlite": true, "runtime": true, "os": true, "syscall": true, "reflect": true, "sync": true, "internal/poll": true, "internal/godebug": true, "log": true, "net": true, "crypto/rand": true, "math/rand": true, "math/rand/v2": true}
 
+// seededGlobals: values of globals of packages whose initialiser is not run.
+var seededGlobals = map[string]func() value{
+	"net.v4InV6Prefix": func() value { return bytesValue(0, 0, 0, 0, 0, 0, 0, 0, 0, 0, 0xff, 0xff) },
+	"net.IPv4zero":     func() value { return bytesValue(0, 0, 0, 0, 0, 0, 0, 0, 0, 0, 0xff, 0xff, 0, 0, 0, 0) },
+	"net.IPv4bcast":    func() value { return bytesValue(0, 0, 0, 0, 0, 0, 0, 0, 0, 0, 0xff, 0xff, 255, 255, 255, 255) },
+	"net.IPv6zero":     func() value { return bytesValue(0, 0, 0, 0, 0, 0, 0, 0, 0, 0, 0, 0, 0, 0, 0, 0) },
+	"net.IPv6unspecified": func() value { return bytesValue(0, 0, 0, 0, 0, 0, 0, 0, 0, 0, 0, 0, 0, 0, 0, 0) },
+	"net.IPv6loopback": func() value { return bytesValue(0, 0, 0, 0, 0, 0, 0, 0, 0, 0, 0, 0, 0, 0, 0, 1) },
+	"net.classAMask":   func() value { return bytesValue(0xff, 0, 0, 0) },
+	"net.classBMask":   func() value { return bytesValue(0xff, 0xff, 0, 0) },
+	"net.classCMask":   func() value { return bytesValue(0xff, 0xff, 0xff, 0) },
+}
+
+func bytesValue(bs ...byte) value {
+	out := make([]value, len(bs))
+	for i, b := range bs {
+		out[i] = b
+	}
+	return out
+}
+
 func globalCell(i *interpreter, g *ssa.Global) *value {
 	if r, ok := i.globals[g]; ok {
 		return r
@@ -765,6 +786,11 @@ func globalCell(i *interpreter, g *ssa.Global) *value {
 	cell := zero(mustDeref(g.Type()))
 	if g.Name() == "init$guard" {
 		cell = true // initialisers run lazily, one package at a time (lazyInit)
+	}
+	if g.Pkg != nil && skipInit[g.Pkg.Pkg.Path()] {
+		if v, ok := seededGlobals[g.Pkg.Pkg.Path()+"."+g.Name()]; ok {
+			cell = v()
+		}
 	}
 	i.globals[g] = &cell
 	return &cell
